@@ -21,6 +21,14 @@ theorem tip_rule (cfg : Config) (hnew : cfg.matches .new = true) (hundo : cfg.ma
   let ⟨_, _, _, h, _, _⟩ := processBlock_step cfg hnew hundo hirr s P b hI hok.1 hok.2.1 hok.2.2.1 hok.2.2.2.1 hok.2.2.2.2
   h
 
+/-- **the consumer is exactly on the path from the LIB to the tip**: in every state of the invariant the consumer's
+    pending list is a parent-linked path of stored blocks resting on the LIB whose top is the last block sent, without
+    repetition — so after the last block of a tree's highest branch was processed (it becomes the tip by `tip_rule`),
+    the consumer holds exactly the path from the LIB to that block -/
+theorem consumer_on_path_to_tip (s : FState) (P : List Id) (hI : Inv s P) (l : Blk) (h : s.lastSent = some l) :
+    IsPath s.db s.db.libRef.id P ∧ topOf s.db.libRef.id P = l.id ∧ P.Nodup ∧ s.db.libRef.id ∉ P :=
+  ⟨hI.path, hI.topSome l h, isPath_nodup _ _ _ hI.path hI.libNotin, hI.libNotin⟩
+
 /-- the tip is the top of the consumer's chain -/
 theorem tip_is_top (s : FState) (P : List Id) (hI : Inv s P) (l : Blk) (h : s.lastSent = some l) :
     topOf s.db.libRef.id P = l.id := hI.topSome l h
